@@ -76,7 +76,7 @@ def touched_roots(base_model: Model, model: Model, edits: List[dict]) -> List[tu
             touched_structs.update([e["mid"], e["leaf"]])
         elif e["edit"] in ("E1-matrix", "E1-same-name", "E1-diamond"):
             touched_structs.update(e["structures"])
-        elif e["edit"] in ("E2-new-property", "E7-remove-optional"):
+        elif e["edit"] in ("E2-new-property", "E7-remove-optional", "E7-new-parent"):
             touched_structs.add(e["structure"])
         elif e["edit"].startswith("E5"):
             kind = "request" if e["edit"].endswith("request") else "notification"
